@@ -34,7 +34,7 @@ def NoclobberOpen {W : Type} (o : Oracle W) (w2 : W) (args : Generated.RedirCons
     descriptor on the here-document's temporary file.  Nothing else can succeed. -/
 def Meaning {W : Type} (o : Oracle W) (t : FdTable) (r : Redir) (after : Option FdEntry) : Prop :=
   match r.body with
-  | .file op path | .fileCs op path =>
+  | .file op path | .fileCs op path _ =>
     ∃ w1 w2 args ofd, o.resolve w1 { path := path, args := args } = (w2, .ok ofd) ∧
       after = some { ofd := ofd, cloexec := false } ∧
       (args = posixOpenArgs op ∨ (op = .fileOut ∧ (∃ w0, o.noclobber w0 = true) ∧ NoclobberOpen o w2 args ofd))
